@@ -465,6 +465,11 @@ func (a *plAnalysis) checkC04(expectSynthetic map[string]bool) {
 				continue
 			}
 			matched = true
+			if expectSynthetic[key] {
+				// dropped upstream while CDC was down: the request is generated from the seek position at restart,
+				// before (and regardless of) the re-read drop messages
+				continue
+			}
 			if len(d.packIdx) == len(d.coll.Shards) { // a complete drop: every shard carries the message
 				for _, sh := range d.coll.Shards {
 					if r.evDelivered[i][sh.SrcV] <= d.packIdx[sh.SrcV] {
